@@ -487,9 +487,12 @@ def blind_flows(S, suite, keys, shapes, label="triv:blind"):
     for L, M, header in shapes:
         sk, pk = keys[rng.randrange(len(keys))]
         h = rand_header(rng) if header == "rand" else header
+        if M == "absent":       # a commitment made with the committed-message list ABSENT (not empty): same as the empty list everywhere
+            fl.append({"suite": suite, "sk": sk, "pk": pk, "header": h, "msgs": rand_msgs(rng, L), "cm": [], "commit_absent": True})
+            continue
         fl.append({"suite": suite, "sk": sk, "pk": pk, "header": h, "msgs": rand_msgs(rng, L), "cm": (None if M is None else rand_msgs(rng, M))})
     cl = [f for f in fl if f["cm"] is not None]
-    res = S.run(["commit %s %s" % (suite, tl(f["cm"])) for f in cl], expect="ok", label=label + ":commit")
+    res = S.run(["commit %s %s" % (suite, "N" if f.get("commit_absent") else tl(f["cm"])) for f in cl], expect="ok", label=label + ":commit")
     for f, r in zip(cl, res):
         if r.status == "OK":
             f["cwp"] = r.b(0); f["blind"] = r.b(1)
@@ -537,7 +540,7 @@ class C05:
         rng = S.rng
         small = 2 if tier == "quick" else 3
         shapes = [(L, M, "rand") for L in range(small + 1) for M in range(small + 1)]
-        shapes += [(0, None, "rand"), (2, None, None), (5, None, b"")]
+        shapes += [(0, None, "rand"), (2, None, None), (5, None, b""), (2, "absent", "rand"), (0, "absent", None)]
         shapes += [(5, 4, "rand"), (10, 1, "rand"), (1, 10, "rand")] + ([(17, 17, "rand"), (33, 8, "rand"), (64, 64, "rand")] if tier != "quick" else [])
         stats = {"shapes": len(shapes), "pairs": 0}
         for suite in SUITES:
